@@ -312,11 +312,12 @@ pub fn cases(tier: Tier) -> Vec<Case> {
         // replace on repeated siblings, void and self-closing targets (not at depth 1: the root occurs once)
         if d >= 2 {
             let sides: Vec<Vec<usize>> = (0..d - 1).map(|_| vec![0]).collect();
-            for k in 2..=3usize {
+            // "for every sibling occurrence of the target": 2, 3 and 4 siblings (odd and even counts), for all three edits
+            for k in 2..=4usize {
                 for sep in [None, Some(0), Some(3), Some(2)] {
                     for inners in [vec![vec![]; k], (0..k).map(|i| vec![(i * 4) % FILLERS.len()]).collect::<Vec<_>>(), (0..k).map(|i| if i % 2 == 0 { vec![P_K] } else { vec![3] }).collect::<Vec<_>>()] {
                         let doc = Doc { path: p.clone(), pre: sides.clone(), post: sides.clone(), targets: inners, separator: sep, kind: TargetKind::Normal, upper: false, attrs: false };
-                        for f in fl.iter().filter(|f| f.action == "replace") {
+                        for f in fl.iter() {
                             out.push(Case::One(doc.clone(), f.clone()));
                         }
                     }
